@@ -67,7 +67,7 @@ func (l *c20Loader) Get(p string) (io.Reader, error) {
 
 type c20In struct {
 	spelled string // how the name is written in the call ("/a" or the un-normalised "a")
-	kind    string // fromcache clean cleanall setdebug setcontent setfail
+	kind    string // fromcache clean cleanall setdebug setcontent setfail use
 	set     int
 	name    string
 	arg     int // version (setcontent: negative = broken), bool as 0/1
@@ -117,7 +117,7 @@ func c20Model() porcupine.Model {
 				for _, op := range history {
 					in := op.Input.(c20In)
 					switch in.kind {
-					case "fromcache", "clean":
+					case "fromcache", "clean", "use":
 						if in.set == setN && in.name == name {
 							part = append(part, op)
 						}
@@ -157,6 +157,9 @@ func c20Model() porcupine.Model {
 			case "setfail":
 				s.failing = in.arg == 1
 				return true, s
+			case "use":
+				// the name is used by other means (FromFile, include, extends, ssi, RenderTemplateFile): the cache does not notice
+				return true, s
 			}
 			out := output.(c20Out)
 			if s.debug || s.cachedID < 0 {
@@ -181,6 +184,9 @@ func c20Model() porcupine.Model {
 			if in.kind == "fromcache" {
 				out := output.(c20Out)
 				return fmt.Sprintf("FromCache(set%d,%q) -> id=%d ver=%d err=%v", in.set, in.spell(), out.id, out.ver, out.err)
+			}
+			if in.kind == "use" {
+				return fmt.Sprintf("use(set%d,%q) by %s", in.set, in.spell(), []string{"FromFile", "static include", "computed-name include", "RenderTemplateFile", "extends", "ssi parsed"}[in.arg])
 			}
 			return fmt.Sprintf("%s(set%d,%q,%d)", in.kind, in.set, in.spell(), in.arg)
 		},
@@ -270,6 +276,37 @@ func (w *c20World) do(client int, in c20In) (c20Out, string) {
 		w.store.mu.Lock()
 		w.store.failing[in.name] = in.arg == 1
 		w.store.mu.Unlock()
+	case "use":
+		l := w.loaders[in.set]
+		l.mu.Lock()
+		before := l.okGets[in.name]
+		l.mu.Unlock()
+		func() {
+			defer func() { recover() }() // RenderTemplateFile panics (documented, Must) when the template cannot be created
+			set := w.sets[in.set]
+			var t *pongo2.Template
+			var err error
+			switch in.arg {
+			case 0:
+				t, err = set.FromFile(in.spell())
+			case 1:
+				t, err = set.FromString(`{% include "` + in.spell() + `" %}`)
+			case 2:
+				t, err = set.FromString(`{% include n %}{% include n if_exists %}`)
+			case 3:
+				set.RenderTemplateFile(in.spell(), nil)
+			case 4:
+				t, err = set.FromString(`{% extends "` + in.spell() + `" %}`)
+			default:
+				t, err = set.FromString(`{% ssi "` + in.spell() + `" parsed %}`)
+			}
+			if err == nil && t != nil {
+				t.Execute(pongo2.Context{"n": in.spell()})
+			}
+		}()
+		l.mu.Lock()
+		out.ver = l.okGets[in.name] - before // exact in sequential histories only
+		l.mu.Unlock()
 	}
 	ret := atomic.AddInt64(&w.rec.clock, 1)
 	iso := ""
@@ -324,6 +361,8 @@ func c20RandOp(r *Rng, nsets int, names []string, concurrent bool) c20In {
 		return c20In{kind: "clean", set: set, name: name, spelled: spelled}
 	case k < 16:
 		return c20In{kind: "cleanall", set: set}
+	case k < 17:
+		return c20In{kind: "use", set: set, name: name, spelled: spelled, arg: r.Intn(6)}
 	default:
 		if concurrent {
 			return c20In{kind: "fromcache", set: set, name: name, spelled: spelled}
@@ -582,8 +621,13 @@ func c20Run(c *C) {
 		for _, n := range names {
 			ids := map[int]bool{}
 			brokenErrs := 0
+			useGets, uses := 0, 0
 			for _, op := range hist {
 				in := op.Input.(c20In)
+				if in.kind == "use" && in.set == si && in.name == n {
+					uses++
+					useGets += op.Output.(c20Out).ver
+				}
 				if in.kind == "fromcache" && in.set == si && in.name == n {
 					out := op.Output.(c20Out)
 					if out.err {
@@ -596,6 +640,10 @@ func c20Run(c *C) {
 			l.mu.Lock()
 			gets := l.okGets[n]
 			l.mu.Unlock()
+			if uses > 0 && concurrent {
+				continue // fetches of concurrent include/FromFile uses cannot be told apart from FromCache's
+			}
+			gets -= useGets // fetches made by FromFile/include/extends/ssi uses of the name (measured around each use)
 			// every successful fetch yields a distinct template or (broken content) an error; errors of a failing loader do not fetch
 			if gets < len(ids) || gets > len(ids)+brokenErrs {
 				c.Fail("fetch-accounting", D{"set": si, "name": n, "successful_loader_fetches": gets, "distinct_templates_returned": len(ids), "errors_returned": brokenErrs, "history": c20Describe(hist)})
